@@ -44,6 +44,8 @@ var skipFns = []func(string) bool{
 	nil,
 	func(t string) bool { return t == "i" || t == "-k" || t == "#text" },
 	func(t string) bool { return strings.HasPrefix(t, "e") },
+	func(t string) bool { return true },    // skip everything - also the empty tag the sequence decoder passes
+	func(t string) bool { return t == "" }, // only the empty tag
 }
 
 type optStep struct {
@@ -325,6 +327,25 @@ var families = []family{
 	{"xml-decode (cast)", func(m *optModel) string { return xmlDecodeDeps(m) + castDeps(m) + fmt.Sprintf(" skip=%d", m.SkipFn) }, func() string {
 		var b strings.Builder
 		for _, d := range xmlCorpus {
+			m, err := mxj.NewMapXml([]byte(d), true)
+			b.WriteString(hres(m, err))
+		}
+		return b.String()
+	}},
+	{"xml-decode (cast) of integer literals", func(m *optModel) string {
+		// documented: with CastValuesToInt on, integer literals become int64/uint64 whatever the
+		// float and bool switches say; NaN/Inf handling does not concern them
+		d := xmlDecodeDeps(m) + fmt.Sprintf(" skip=%d int=%v", m.SkipFn, m.CastInt)
+		if !m.CastInt {
+			d += fmt.Sprintf(" float=%v", m.CastFloat)
+		}
+		return d
+	}, func() string {
+		var b strings.Builder
+		for _, d := range []string{
+			`<r><i>0</i><i>-1</i><i>42</i><n k="7">9223372036854775807</n><i>9223372036854775808</i><i>18446744073709551615</i><i>-9223372036854775808</i></r>`,
+			`<q a="12" b="18446744073709551614"><z>100</z><z>7</z></q>`,
+		} {
 			m, err := mxj.NewMapXml([]byte(d), true)
 			b.WriteString(hres(m, err))
 		}
@@ -704,7 +725,7 @@ func init() {
 		},
 		Init: initC18,
 		Run:  runC18,
-		Rule: "each case = a seeded history of 1..40 option-setter calls (all 21 setters, explicit / argument-less / repeated forms, attribute prefixes, single-character key prefixes, both escaping switches in either order) interleaved with probe steps and ended by restoring every default explicitly; after a probe step every one of 10 probe families (XML decode with and without cast, sequence decode with and without cast, JSON decode, XML encode, sequence encode, JSON encode/Copy, leaf queries, key/path queries and updates; fixed corpus) is executed and its output hash is compared with the hash recorded for the same (family, model state projected on the options the family may depend on per the documentation); the table starts with the hashes of a fresh process. Non-trivial = at least two setter calls followed by a probe; distinct = distinct histories.",
+		Rule: "each case = a seeded history of 1..40 option-setter calls (all 21 setters, explicit / argument-less / repeated forms, attribute prefixes, single-character key prefixes, both escaping switches in either order) interleaved with probe steps and ended by restoring every default explicitly; after a probe step every one of 11 probe families (XML decode with and without cast, cast of integer literals, sequence decode with and without cast, JSON decode, XML encode, sequence encode, JSON encode/Copy, leaf queries, key/path queries and updates; fixed corpus) is executed and its output hash is compared with the hash recorded for the same (family, model state projected on the options the family may depend on per the documentation); the table starts with the hashes of a fresh process. Non-trivial = at least two setter calls followed by a probe; distinct = distinct histories.",
 		Assumptions: []string{
 			"the option model and the dependency matrix are my reading of the setters' doc comments (DESIGN.md §3 C18)",
 			"histories stay in the property's domain: attribute prefix distinct from the global key prefix; key prefixes are single punctuation characters",
